@@ -127,7 +127,7 @@ class C01(Check):
                 {**base, 'text': t({'jsonrpc': '2.0', 'id': 1, 'method': 'rpc_err'}),
                  'behaviours': {'rpc_err': {'kind': 'raise_rpc', 'error': {'cls': 'JsonRpcError', 'code': 0, 'message': '', 'data': {'absent': True}}}}},
             ]
-        out += stdreg.exception_corpus('MARKER-c01-zq')
+        out += stdreg.exception_corpus('MARKER-c01-zq') + stdreg.rpc_error_corpus()
         return out
 
     def run_case(self, spec: Any) -> Outcome:
